@@ -85,6 +85,7 @@ type BadCase struct {
 	Body     string
 	Mask     bool
 	Why      string
+	RawTail  string // appended verbatim to the encoded query (malformed query strings)
 }
 
 var badTokens = []string{"", "-1", "-9223372036854775808", "9223372036854775808", "18446744073709551616", "1.0", "1e2", "0x1", "١", " 1", "1 ", "abc", "99999999999999999999999999", "NaN", "1,2", "1;2"}
@@ -120,6 +121,17 @@ func genBad(t *rapid.T) BadCase {
 			c.Params[k] = sp(vs[0])
 		}
 		c.Body = string(q.body)
+		return c
+	}
+	if !post && rapid.IntRange(0, 6).Draw(t, "rawtail") == 0 {
+		// valid parameters, but the query string as a whole does not parse
+		q := validRequest(c.Endpoint2(), 1, false)
+		vals, _ := url.ParseQuery(q.query)
+		for k, vs := range vals {
+			c.Params[k] = sp(vs[0])
+		}
+		c.RawTail = rapid.SampledFrom([]string{"&x=%zz", "&%zz", "&a;b", ";", "&x=%", "&%G1=1", "&y=%f"}).Draw(t, "tail")
+		c.Why = "malformed query string"
 		return c
 	}
 	switch c.Endpoint {
@@ -208,8 +220,12 @@ func checkBad(t *testing.T, c BadCase) (v harness.Verdict) {
 	if c.Method == "POST" || c.Body != "" {
 		body = []byte(c.Body)
 	}
-	o := r.do(request{c.Method, "/ct/v1/" + c.Endpoint, q.Encode(), body})
-	tag := fmt.Sprintf("%s %s ?%s body=%q (%s)", c.Method, c.Endpoint, q.Encode(), trunc(body), c.Why)
+	query := strings.TrimPrefix(q.Encode()+c.RawTail, "&")
+	o := r.do(request{c.Method, "/ct/v1/" + c.Endpoint, query, body})
+	tag := fmt.Sprintf("%s %s ?%s body=%q (%s)", c.Method, c.Endpoint, query, trunc(body), c.Why)
+	if c.Endpoint == "get-roots" && c.RawTail != "" {
+		// get-roots makes no backend call and takes no parameters; only the status is judged
+	}
 	if o.panicked != nil {
 		v.Failf("panic", "%s: panicked: %v", tag, o.panicked)
 		return v
